@@ -2,6 +2,10 @@ package c06
 
 import (
 	"fmt"
+	"os"
+	"os/signal"
+	"sync"
+	"syscall"
 
 	"github.com/kardiachain/go-kardia/kai/rawdb"
 	"github.com/kardiachain/go-kardia/mainchain/blockchain"
@@ -58,12 +62,17 @@ func networkCase(c *core.Case) {
 		run.Inconclusive("network start failed: " + err.Error())
 		return
 	}
+	// consensus sends SIGTERM to its own process when ApplyBlock fails on a committed block: catch it and report it
+	sigOnce.Do(func() { signal.Notify(sig, syscall.SIGTERM) }) // stays installed: nodes of a finished case may still ask for it
+	for len(sig) > 0 {
+		<-sig
+	}
 	heights := 4 + r.Intn(4)
 	wit := func() map[string]interface{} {
 		return map[string]interface{}{"validators": n, "powers": powers, "cache_configs": cfgName, "galaxias": gal, "heights": net.Heights(), "schedule_tail": net.TailSched(60)}
 	}
 	for h := 1; h <= heights; h++ {
-		specs := planTxs(r, w, net.Nodes[0].BC, uint64(h))
+		specs := planTxs(r, w, net.Nodes[0].BC, uint64(h), nil)
 		accepted := 0
 		for _, s := range specs {
 			tx := s.Sign(w)
@@ -77,13 +86,14 @@ func networkCase(c *core.Case) {
 				accepted++
 			}
 		}
-		for _, nd := range net.Nodes {
-			if nd != nil {
-				nd.Pool.VerifWaitReorg()
-			}
-		}
 		run.Count("network_txs_accepted_by_pools", accepted)
 		res := net.RunSync(uint64(h), uint32(10*n), nil)
+		select {
+		case <-sig:
+			c.Violation("committed-block-not-applicable-on-a-node:network", fmt.Sprintf("height %d: a node failed to apply a block the network committed (consensus asked for the process to be killed); other nodes: %s", h, net.Heights()), wit())
+			return
+		default:
+		}
 		if !res.Reached {
 			// liveness is C04's subject; without commits there is nothing to compare
 			run.Inconclusive(fmt.Sprintf("network did not reach height %d (case %s:%d): %s%s", h, c.Group, c.I, res.Deadlock, res.Stuck))
@@ -148,3 +158,8 @@ func networkCase(c *core.Case) {
 }
 
 var _ = blockchain.CacheConfig{}
+
+var (
+	sig     = make(chan os.Signal, 64)
+	sigOnce sync.Once
+)
